@@ -101,7 +101,9 @@ func check(args []string) {
 	if ps == nil {
 		fatal(fmt.Errorf("no such property %s", *prop))
 	}
-	timeout := 30
+	// CPU seconds per solver process and attempt; the retry ladder below goes to three times this. The slowest obligations
+	// of the unchanged tree (C10 plOK, C13 buffered.Conn.Write: cvc5 only) need 23-28 s, measured over repeated runs
+	timeout := 45
 	if *tier == "thorough" {
 		timeout = 120
 	}
@@ -133,10 +135,12 @@ func check(args []string) {
 			os.WriteFile(f, []byte("property: "+*prop+"\nfailed obligation: the contracts of this property type-check against the code\nkind: stale contract\n\nThe code compiles, but the contract clauses (generated file "+vc.GenFileName+") do not type-check against it any more:\n\n"+msg+"\n"), 0o644)
 			fmt.Printf("%s %s: contracts do not type-check against the code (stale)\n", *prop, *tier)
 			fmt.Printf("VIOLATION property=%s replay=%s no-failing-input-found\n", *prop, f)
+			os.RemoveAll(scratch)
 			os.Exit(1)
 		}
 		// the tree itself does not load/type-check: undecidable here, not a property verdict
 		fmt.Fprintln(os.Stderr, "govc: load failed:", err)
+		os.RemoveAll(scratch)
 		os.Exit(2)
 	}
 	replayDir := filepath.Join(*verif, "replays", *prop)
@@ -250,7 +254,7 @@ func check(args []string) {
 	// verdicts
 	total, discharged := 0, 0
 	bySolver := map[string]int{}
-	solverTime := 0.0
+	solverTime, solverCPU := 0.0, 0.0
 	var samples []map[string]interface{}
 	var knownLines []string
 	for _, r := range results {
@@ -272,10 +276,11 @@ func check(args []string) {
 		total++
 		bySolver[r.V.Solver]++
 		solverTime += r.V.Seconds
+		solverCPU += r.V.CPU
 		if r.OK {
 			discharged++
 			if len(samples) < 12 && r.V.Solver != "simplifier" {
-				samples = append(samples, map[string]interface{}{"obligation": id, "verdict": r.V.Status, "expected": r.O.Expect, "solver": r.V.Solver, "seconds": r.V.Seconds})
+				samples = append(samples, map[string]interface{}{"obligation": id, "verdict": r.V.Status, "expected": r.O.Expect, "solver": r.V.Solver, "seconds": r.V.Seconds, "cpu_seconds": r.V.CPU})
 			}
 			continue
 		}
@@ -286,7 +291,7 @@ func check(args []string) {
 			line += " no-failing-input-found"
 		}
 		vioLines = append(vioLines, line)
-		samples = append(samples, map[string]interface{}{"obligation": id, "verdict": r.V.Status, "expected": r.O.Expect, "solver": r.V.Solver, "seconds": r.V.Seconds, "replay": file})
+		samples = append(samples, map[string]interface{}{"obligation": id, "verdict": r.V.Status, "expected": r.O.Expect, "solver": r.V.Solver, "seconds": r.V.Seconds, "cpu_seconds": r.V.CPU, "replay": file})
 	}
 	for i, m := range staleMsgs {
 		violations++
@@ -304,10 +309,10 @@ func check(args []string) {
 	}
 	// the slowest discharged obligations (stability watch: anything near the budget is a candidate for a false alarm)
 	sorted := append([]vc.Result{}, results...)
-	sort.Slice(sorted, func(i, j int) bool { return sorted[i].V.Seconds > sorted[j].V.Seconds })
+	sort.Slice(sorted, func(i, j int) bool { return sorted[i].V.CPU > sorted[j].V.CPU }) // budgets are CPU seconds
 	var slowest []map[string]interface{}
 	for i := 0; i < len(sorted) && i < 6; i++ {
-		slowest = append(slowest, map[string]interface{}{"obligation": oblID(sorted[i]), "seconds": sorted[i].V.Seconds, "solver": sorted[i].V.Solver, "verdict": sorted[i].V.Status})
+		slowest = append(slowest, map[string]interface{}{"obligation": oblID(sorted[i]), "seconds": sorted[i].V.Seconds, "cpu_seconds": sorted[i].V.CPU, "solver": sorted[i].V.Solver, "verdict": sorted[i].V.Status})
 	}
 	var tb []string
 	for k := range trusted {
@@ -328,6 +333,8 @@ func check(args []string) {
 			"functions":         funcs,
 			"by_back_end":       bySolver,
 			"solver_seconds":    solverTime,
+			"solver_cpu_seconds": solverCPU,
+			"budget_unit":       fmt.Sprintf("CPU seconds per solver process (RLIMIT_CPU); wall-clock backstop at %dx the budget", vc.WallFactor),
 			"samples":           samples,
 			"slowest":           slowest,
 			"not_covered":       ps.NotCovered,
@@ -355,6 +362,9 @@ func check(args []string) {
 		}
 	}
 	if violations > 0 {
+		if !*keep {
+			os.RemoveAll(scratch) // os.Exit skips the deferred removal
+		}
 		os.Exit(1)
 	}
 }
@@ -389,7 +399,7 @@ func writeReplay(e *vc.Engine, prop, dir string, r vc.Result, scratch string) (s
 	if rp != "" {
 		fmt.Fprintf(&sb, "candidate input derived from the model (did not reproduce a panic when run): %s\n", rp)
 	}
-	fmt.Fprintf(&sb, "property: %s\nfailed obligation: %s\nkind: %s\nfunction: %s\nsource: %s\nexpected: %s\nsolver verdict: %s (%s, %.2fs)\n\n", prop, r.O.Name, r.O.Kind, r.O.Fn, r.O.Pos, r.O.Expect, r.V.Status, r.V.Solver, r.V.Seconds)
+	fmt.Fprintf(&sb, "property: %s\nfailed obligation: %s\nkind: %s\nfunction: %s\nsource: %s\nexpected: %s\nsolver verdict: %s (%s, %.2fs wall, %.2fs cpu)\n\n", prop, r.O.Name, r.O.Kind, r.O.Fn, r.O.Pos, r.O.Expect, r.V.Status, r.V.Solver, r.V.Seconds, r.V.CPU)
 	sb.WriteString("solver output:\n" + r.V.Output + "\n")
 	if r.V.Script != "" {
 		if data, err := os.ReadFile(r.V.Script); err == nil {
